@@ -634,7 +634,7 @@ pub fn main(ctx: &Ctx) {
         let fail = vcore::pt::run_cases(
             cases,
             ctx.rng_seed("cases"),
-            200,
+            100,
             &strat,
             &mut report.stats,
             &known,
